@@ -145,6 +145,29 @@ MANIFEST_TEXT["C13"] = {
     "design_ref": "DESIGN.md section 3 / C13",
 }
 
+PLAN["C15"] = {
+    "pkg": "c15",
+    "tests": [
+        {"name": "TestQueryEvaluation", "quick": (320000, 8), "thorough": (16000000, 16)},
+    ],
+    "budget": {"quick": 600, "thorough": 5400},
+    "rule": "contacts built by construction (name, language, created_on/last_seen_on and datetime fields on and next to a drawn day "
+            "incl. DST-change days, 0-3 URNs, number/text fields, ticket) x boolean trees (AND/OR/implicit AND, depth <= 3) of "
+            "conditions over every attribute, scheme and field type with every operator the validator admits, in random environments "
+            "(date format, timezone, redaction). Oracle: no panic; whole-query result equals plain &&/|| over leaves evaluated alone; "
+            "empty-valued =/!= equal absence/presence in the constructed contact; for present single number/date values exactly one of "
+            "<,=,> and <=,>=,!= are the unions/negation; numbers agree with decimal comparison; date-only values agree with the "
+            "calendar day of the contact value in the environment timezone. Non-trivial = contact value exactly on a boundary (local "
+            "midnight or equal number), a multi-valued URN property, or tree depth >= 2; distinct by (query, contact, env).",
+    "assumptions": COMMON_ASSUMPTIONS + ["fixed asset set (2 number, 2 datetime, 2 text fields); query values with an explicit offset get only the operator algebra"],
+}
+MANIFEST_TEXT["C15"] = {
+    "technique": "property-based testing (rapid): generated contacts x query trees against an independent reference model (boolean algebra over separately evaluated leaves, operator trichotomy, decimal and calendar-day models)",
+    "level_text": "Exploration: every generated (query, contact, environment) evaluated without panic and agreed with the reference algebra; the DST day-range deviation is a listed finding classified only on the calendar-day clause for irregular days.",
+    "level_note": "Trusts Go's time package/tzdata for the calendar-day model and the harness's by-construction knowledge of the contact.",
+    "design_ref": "DESIGN.md section 3 / C15",
+}
+
 # every property without a registered check is listed here with the reason (kept current as checks are added)
 NOT_APPLICABLE = [{"property_id": pid, "reason": "check not built yet in this round (planned in DESIGN.md); nothing is claimed for it"}
                   for pid in ALL_IDS if pid not in PLAN]
